@@ -247,6 +247,11 @@ class BloomDriver:
             self.count = v
             self.events.add("setcount")
             ctx.op("setcount", v)
+            if self.kind == "ondisk" and op[1] % 3 == 1 and v >= 0:
+                # the assigned value is the last thing that happens before the filter is closed: it must be what the file records
+                self._reload("reopen", anyo)
+                self.events.add("reopen_right_after_setcount")
+                ctx.op("reopen")
         elif kind == "rewind":
             # statistics are queried, several keys are added with NO query in between, the (documented settable) element counter is
             # assigned the value it had at the query, and the statistics are queried again: they must describe the bits of now
